@@ -69,7 +69,7 @@ func snapshotCheck(prop string, mod func(*gridOpts), extraRule string) int {
 	}
 	rep := explore.NewReport(prop, "model_checking")
 	rep.Rule = "snapshot enumeration (grids explored in order): " + desc + "One real reconcile per snapshot, judged against the snapshot it saw. " + extraRule +
-		" A case is non-trivial when the reconcile issued at least one API write or returned an error; distinct = distinct canonical state keys among those."
+		" The same monitor also runs over the progress closure of the C02 seeds explored with stale caches (lag bound L=1; thorough: L=1 with one deviation and L=2), where the reconciler sees snapshots lacking its own latest writes. A case is non-trivial when the reconcile issued at least one API write or returned an error; distinct = distinct canonical state keys among those."
 	rep.Assumptions = apiAssumptions
 	var n int64
 	explore.RunSnapshots(rep, explore.Deadline(100*time.Second, 15*time.Minute), func(emit func(explore.Case) bool) {
@@ -89,6 +89,7 @@ func snapshotCheck(prop string, mod func(*gridOpts), extraRule string) int {
 	case "C12":
 		c12CensusClause(rep)
 	}
+	lagPhases(rep, prop)
 	return rep.Finish()
 }
 
